@@ -69,15 +69,10 @@ Lemma C03_holds_on_model m reg tm bytes :
   tm_safe tm ->
   C03_holds_on m reg tm bytes (show_outcome (fst (decode_packet m reg tm bytes))) = true.
 Proof.
-  intros S. destruct (decode_packet_total m reg tm bytes S) as [P F].
-  destruct (decode_packet m reg tm bytes) as [o tm'] eqn:D. cbn [fst] in *.
-  destruct o as [[h tid es|h tid rs]| | |]; try congruence.
-  - destruct (decode_packet_template _ _ _ _ _ _ _ _ D) as [Sp _].
-    unfold C03_holds_on, show_outcome. cbn [show_msg]. cbn [String.eqb Ascii.eqb Bool.eqb].
-    rewrite Sp. cbn [show_msg snd]. apply String.eqb_refl.
-  - destruct (decode_packet_data _ _ _ _ _ _ _ _ D) as [Sp _].
-    unfold C03_holds_on, show_outcome. cbn [show_msg]. cbn [String.eqb Ascii.eqb Bool.eqb].
-    rewrite Sp. cbn [show_msg snd]. apply String.eqb_refl.
+  intros S. pose proof (decode_packet_refines m reg tm bytes S) as R.
+  unfold C03_holds_on.
+  destruct (fst (decode_packet m reg tm bytes)) as [msg|k| |]; try contradiction; rewrite R.
+  - cbn [show_outcome]. now rewrite !String.eqb_refl.
   - reflexivity.
 Qed.
 
